@@ -127,6 +127,52 @@ CLAIMS['C13'] = dict(
     text='Partial claim (structural necessary conditions only): signer and verifier bind the message through the same term, the verifier compares the product of exactly two pairings with the public pairing value, the fill loop contributes exactly on index matches, sign/verify are precompute + precomputed forms. Whether verification accepts exactly the signed message/list is the value of a pairing equation and is NOT decided.',
     design_ref='DESIGN.md 9.7', note='no claim about soundness or unforgeability')
 
+
+# ---- claims as extended by the algebraic value-numbering rules (override the entries above)
+CLAIMS['C01'].update(
+    technique='static analysis: control-dependence rule on the CFG of the multi-pair Miller loop; algebraic value numbering (polynomial normal forms) of the Miller doubling/addition steps and the line evaluation; exponent-domain value numbering of the final exponentiation; who-may-write rule for field representations; constant relations against an independent big-integer pairing',
+    text='Decided for all inputs at once: the running point is updated by the tangent / chord rule and the coefficient triple is proportional (by a factor that the final exponentiation removes) to the tangent / chord line through the untwisted points; ell multiplies the accumulator by that line at positions 1, v, vw; the final exponentiation raises to 3(q^12-1)/r; identity pairs contribute nothing wherever they sit; constants are right. Not decided: that these pieces compose to the optimal-ate pairing is the textbook theorem (assumed), and the base-field layer is C02/C03.',
+    note='trusted base: clang front end, jpfacts, the gvn interpreter and polynomial arithmetic of jpv; x is the trusted parameter')
+CLAIMS['C02'].update(
+    technique='static analysis: word-level algebraic value numbering of the x86-64 and AArch64 multi-precision routines (integer-polynomial normal forms with carry identities, interval arguments for dropped carries, path facts for the correction tails); constant relations; truth tables of the portable correction branches; no-wrap rule; who-may-write rule for representations with a table of decided primitives',
+    text='Decided: every assembly add/subtract/double/multiply/square/Montgomery-reduce (and fused multiply-reduce) routine computes its specification polynomial on every path and aliasing pattern, with the modulus correction applied exactly when the value reaches the modulus; all constants; zero special cases; portable correction branches; no dropped carry in the portable layer; no code outside the 12 decided primitives writes a representation. Not decided: the portable C++ multiply/reduce as values (only carries/branches), inversion / square-root arithmetic.',
+    note='preconditions of the specifications (operands canonical, inv*p[0] = -1 mod 2^64, T < p*2^384) are stated, not derived')
+CLAIMS['C03'].update(
+    technique='static analysis: word-level algebraic value numbering of every x86-64 (baseline and BMI2/ADX) and AArch64 routine against one specification polynomial per operation; sibling cross-check of specialisation signatures and forwarding; must-write / may-read / flag dataflow; dispatch pairing',
+    category='other',
+    text='Decided: the x86-64 baseline, x86-64 BMI2/ADX and AArch64 routines all compute the same specification (exact integer add/sub/double with returned carry, full product/square, modular add/sub/double, Montgomery reduction with canonical result) for all operands and admitted aliasing patterns, so they agree with each other bit for bit; specialisations forward operands in order. Not decided: ARMv6-M bodies (not assemblable here) and the portable C++ multiply/reduce as values. Found and fixed D10 (baseline x86-64 square dropped a carry for operands >= ~2^383).',
+    note='trusted base: clang integrated assembler + llvm-objdump, the instruction semantics in jpv/asmsem.py')
+CLAIMS['C04'].update(
+    technique='static analysis: algebraic value numbering of every tower routine over F_q[inputs] compared with the definitional arithmetic (all aliasing patterns); span check for cyclotomic squaring; exponent-domain value numbering; constant tables; interval analysis of indices; who-may-write rule for field representations',
+    text='Decided for all inputs: every Fq2/Fq6/Fq12 routine (incl. sparse products, Frobenius maps for every power, inversion modulo its inner inversion, cyclotomic squaring on the cyclotomic subgroup) equals the defining polynomial arithmetic; table entries and index ranges; no tower code touches a field representation directly (so operands of base-field operations are canonical). Not decided: Fq2 square root / Legendre, byte I/O.',
+    note='base-field operations are treated as exact ring operations (C02/C03)')
+CLAIMS['C05'].update(
+    technique='static analysis: algebraic value numbering of doubling / addition (projective and mixed) against the tangent / chord rule; edge-dominance rules for exceptional-case guards identified by effect; representation-independence rule and truth table for point equality',
+    text='Decided for all inputs: the general-case formulas are the group law on affine images (G1 and G2, out distinct or aliased); every exceptional case is handled by a guard that dominates the formula with the right effect; equality never lets the coordinates of an identity operand influence the verdict (Projective) and has the right truth table (Affine). Not decided: curve membership as a statement about values, scalar recoding.',
+    note='coordinate ring of G2 is Fq2, whose operations are decided under C04')
+CLAIMS['C11'].update(
+    technique='static analysis: abstract interpretation of every path segment of the key-derivation routines in the discrete-log domain (formal linear combinations of base symbols with polynomial coefficients mod r, bilinear expansion of pairings) compared with effect tables written from the scheme definition; cursor-discipline path rules',
+    text='Decided for every number of slots and every attribute list (initialisation + per-iteration effect by category + exit condition + finalisation): setup, keygen, qualifykey, the non-delegable variants, resamplekey produce exactly the components the construction prescribes (which generator, which exponent, which randomness, every component re-randomised) and decrypt / decrypt_master compute the prescribed pairing product; cursors advance correctly. Not decided: the distribution of keys, the pairing itself (C01).',
+    note='assumes sorted attribute / free-slot lists; the effect tables are the oracle (written from the construction, cross-checked symbolically)')
+CLAIMS['C12'].update(
+    technique='static analysis: discrete-log-domain effect tables per path segment (hidden-slot categories), hidden-path rule, totality rule on precompute',
+    text='Decided: on every path a hidden slot contributes neither to a0 nor a delegation component and a parent component for it is consumed; visible attributes enter with the right generator and identity; precompute binds every listed attribute with h[idx]^id; the ciphertext binds the product with the encryption randomness. Non-decryptability is a cryptographic statement and is NOT decided.',
+    note='necessary conditions of the security statement; sufficient for the functional clauses')
+CLAIMS['C13'].update(
+    technique='static analysis: discrete-log-domain effect tables for sign_precomputed / verify_precomputed (value of both sides of the verification equation), signer fill-loop paths, delegation shape',
+    text='Decided: the signature components are exactly key * (hsig^m * prodexp)^s re-randomised, free slots are filled exactly on index matches, and verification compares e(a0,g)/e(hsig^m*prodexp,a1) with the public pairing value. That this accepts exactly the signed message/list is then the algebra of the scheme (bilinearity assumed). Unforgeability is NOT decided.',
+    note='no claim about soundness')
+CLAIMS['C14'].update(
+    technique='static analysis: discrete-log-domain effect tables for precompute / adjust_precomputed / adjust_nondelegable / resamplekey per path segment; forwarding-shape rule; merge progress; borrow-repair rule for subtraction modulo r',
+    text='Decided for all list shapes: the two-cursor merge adds (to.id - from.id) h[idx], removes from-only and adds to-only attributes, drains both lists; adjust_nondelegable adjusts a0 by the same differences of the parent components and hands on exactly the slots `to` does not bind; direct forms are precompute + precomputed forms. Not decided: the skip loops of adjust_nondelegable in the presence of hidden entries (semantics not derivable).',
+    note='assumes sorted lists')
+CLAIMS['C16'].update(
+    technique='static analysis: discrete-log-domain effect tables for LQ-IBE setup/keygen/encrypt/decrypt (both pairing arguments, hash-input members, callback arguments); writer/reader agreement and padding-freeness of the hash-input struct; who-may-call for cofactor clearing',
+    text='Decided: sk = s*Q_id, ciphertext = r*P, encryption hashes (enc Q_id, enc rP, e(Q_id, r*sP)) and decryption hashes (enc Q_id, enc rP, e(s*Q_id, rP)) through the same callback arguments; the struct has no padding in any configuration. Equality of the two pairing values is bilinearity (C01).',
+    note='structural + value-domain agreement')
+CLAIMS['C08'].update(
+    note='the traces depend only on bls_x and literals; a data-dependent condition other than the identity tests makes pairs non-uniform and is reported as a violation')
+
 NA = {
 }
 
